@@ -96,6 +96,7 @@ func cmdCheck(argv []string) int {
 	noReplay := fs.Bool("no-replay", false, "do not replay counterexamples natively")
 	solver := fs.String("solver", "z3-new", "z3-new|z3|cvc5")
 	cpuprof := fs.String("cpuprofile", "", "write a CPU profile")
+	witness := fs.Int("witness", -1, "passing paths per instance to replay natively (translation self-check); default 0 quick, 2 thorough")
 	fs.Parse(argv[1:])
 	if s := os.Getenv("VERIF_SEED"); s != "" {
 		if n, err := strconv.Atoi(s); err == nil {
@@ -150,8 +151,21 @@ func cmdCheck(argv []string) int {
 		}
 		insts = f
 	}
+	nw := *witness
+	if nw < 0 {
+		nw = 0
+		if *tier == "thorough" {
+			nw = 2
+		}
+	}
+	if *noReplay {
+		nw = 0
+	}
 	for _, in := range insts {
 		in.Prop = id
+		if !in.EngineOnly && !in.NoWitness && in.Expect == "" {
+			in.witnessLeft = int32(nw)
+		}
 	}
 	fmt.Printf("symgo: property %s tier %s: %d harness instances, %d workers, load %.1fs\n", id, *tier, len(insts), eng.workers, eng.loadTime.Seconds())
 	results, stats := eng.RunInstances(insts)
@@ -236,6 +250,29 @@ func cmdCheck(argv []string) int {
 				inconcl = append(inconcl, fmt.Sprintf("SPURIOUS %s: solver model for %q does not reproduce natively (%s); encoding or model wrong; replay=%s", in.Name(), v.Label, outcome, file))
 			}
 		}
+	}
+	// translation self-check: passing paths replayed natively must pass, with the same cover tags
+	wRun, wOK := 0, 0
+	for _, ir := range results {
+		for i, w := range ir.Witnesses {
+			file := writeWitnessFile(vd, id, ir.Inst, w, i)
+			wRun++
+			out := runReplay(vd, file, "")
+			if strings.HasPrefix(out, "passes-natively covers=") {
+				got := strings.TrimPrefix(out, "passes-natively covers=")
+				if got == strings.Join(w.Covers, ",") {
+					wOK++
+					os.Remove(file)
+					os.Remove(strings.TrimSuffix(file, ".json") + ".replay.log")
+					continue
+				}
+				out = fmt.Sprintf("passes natively but reaches covers [%s], the engine path [%s]", got, strings.Join(w.Covers, ","))
+			}
+			inconcl = append(inconcl, fmt.Sprintf("TRANSLATION-MISMATCH %s: a path the engine completes does not run the same way natively (%s); replay=%s", ir.Inst.Name(), out, file))
+		}
+	}
+	if wRun > 0 {
+		fmt.Printf("  translation self-check: %d passing paths replayed natively, %d agree\n", wRun, wOK)
 	}
 	for _, l := range knownLines {
 		fmt.Println(l)
@@ -329,6 +366,24 @@ func writeReplayFile(vd, id string, in *Instance, v *Violation, _ interface{}) s
 	return file
 }
 
+func writeWitnessFile(vd, id string, in *Instance, w *WitnessPath, i int) string {
+	dir := filepath.Join(vd, "replays", id)
+	os.MkdirAll(dir, 0o755)
+	h := sha256.Sum256([]byte(in.Name()))
+	file := filepath.Join(dir, fmt.Sprintf("witness_%s_%s_%d.json", in.Func, hex.EncodeToString(h[:4]), i))
+	rf := replayFile{Property: id, Harness: in.Func, Pkg: in.Pkg, Args: in.Args, Assertion: "",
+		Decisions: decisionsString(w.Decisions), Values: w.Syms}
+	if rf.Values == nil {
+		rf.Values = []SymRecord{}
+	}
+	if rf.Args == nil {
+		rf.Args = []int64{}
+	}
+	b, _ := json.MarshalIndent(rf, "", " ")
+	os.WriteFile(file, b, 0o644)
+	return file
+}
+
 // runReplay runs the harness natively (real code, real libraries) with the
 // values of the counterexample and reports whether the same assertion fails.
 func runReplay(vd, file, label string) string {
@@ -401,6 +456,17 @@ func TestVReplay(t *testing.T) {
 	case strings.Contains(s, fmt.Sprintf("VREPLAY-VIOLATION label=%q", label)):
 		return "reproduced"
 	case strings.Contains(s, "VREPLAY-END ok"):
+		if label == "" {
+			cov := ""
+			if i := strings.Index(s, "VREPLAY-COVERS "); i >= 0 {
+				j := strings.IndexByte(s[i:], '\n')
+				if j < 0 {
+					j = len(s) - i
+				}
+				cov = strings.TrimSpace(s[i+15 : i+j])
+			}
+			return "passes-natively covers=" + cov
+		}
 		return "passes-natively"
 	case strings.Contains(s, "VREPLAY-END violation"):
 		return "different-assertion-failed-natively"
